@@ -31,7 +31,7 @@ CHECKS = {
     ),
     "C03": (
         "exploration",
-        "exhaustive/sampled call matrix (every magic word, parser function and site alias x 0-3 arguments x 16 shapes) + Hypothesis "
+        "exhaustive/sampled call matrix (every magic word, parser function and site alias x 0-3 arguments x 20 shapes) + Hypothesis "
         "template universes with recursion and argument-multiplying templates; oracle: returns str, raises nothing, CPU/output/memory budgets",
         "The call matrix is a finite space enumerated completely for <= 2 arguments (sampled for 3 in quick, complete for built-ins in "
         "thorough); universes are sampled. Failures are bucketed by innermost repo frame so that one root cause is one bucket.",
@@ -56,7 +56,7 @@ CHECKS = {
         "the 58 cleaning passes applied one by one; writers' container contract after the full sequence",
         "An identity-based validator written without reference to advtree's own validators decides tree well-formedness after every single "
         "pass on thousands of generated trees per run; the failing pass is part of the bucket.",
-        "Trees that cannot be obtained (parse failure, raising pass) are C01's / C06's findings and are skipped here.",
+        "A pass that raises is C06's finding; like TreeCleaner.clean(), which swallows the error, the check goes on with the next pass and judges the tree the writer would get. Parse failures are C01's.",
         "DESIGN.md section 2 C05",
     ),
     "C06": (
